@@ -30,6 +30,10 @@ int cmd_c12(int argc, char **argv) {
     fputs("{\"k\":\"cf\",\"E\":", OUT); jd(E); fprintf(OUT, ",\"CS_KN\":[%d,", e == NULL); jd(cs); fputc(']', OUT); xrl_clear_error(&e);
     arr("th", 25, th); arr("ph", 8, ph); arr("Th", 25, Th); arr("KN", 25, KN); arr("CE", 25, CE); arr("MT", 25, MT); arr("KNm", 25, KNm); arr("KNp", 25, KNp); arr("Thm", 25, Thm); arr("Thp", 25, Thp);
     arr("CEm", 25, CEm); arr("CEp", 25, CEp); arr("ThP", 200, ThP); arr("KNP", 200, KNP); arr("KNPm", 200, KNPm); arr("gth", 48, gth); arr("gKN", 48, gKN);
+    /* angles of many turns: the library's trigonometry must stay exact there too (no home-made argument reduction) */
+    { static const double hth[6] = {1e3, 1e6, 1e9, 1e12, 1e15, -1e15}; double hTh[6], hKN[6], hCE[6], hKNP[6];
+      for (int i = 0; i < 6; i++) { hTh[i] = DCS_Thoms(hth[i], NULL); hKN[i] = DCS_KN(E, hth[i], NULL); hCE[i] = ComptonEnergy(E, hth[i], NULL); hKNP[i] = DCSP_KN(E, hth[i], ph[1], NULL); }
+      arr("hth", 6, hth); arr("hTh", 6, hTh); arr("hKN", 6, hKN); arr("hCE", 6, hCE); arr("hKNP", 6, hKNP); }
     fputs("}\n", OUT);
   }
   return 0;
